@@ -82,7 +82,9 @@ def _finish(prop, tier, seed, res, skipped, rule, bound, assumptions, extra_cov=
 class Elementwise:
     """A property decided by xvdrive over harness objects h_<group>.cpp."""
 
-    def __init__(self, harnesses, rule, bound, deadline=(600, 7200), assumptions=None, extra_flags=()):
+    def __init__(self, harnesses, rule, bound, deadline=(600, 7200), assumptions=None, extra_flags=(), probed=False):
+        self.probed = probed
+        self.rejected = {}
         self.harnesses = harnesses
         self.rule = rule
         self.bound = bound
@@ -93,8 +95,13 @@ class Elementwise:
     def build(self, prop):
         run, skipped = vlib.runnable_archs()
         mods = []
+        self.rejected = {}
         for h in self.harnesses:
-            res, errs = vlib.build_modules(h, run, self.extra_flags)
+            if self.probed:
+                res, errs, rej = vlib.build_modules_probed(h, run, self.extra_flags)
+                self.rejected[h] = {a: r for a, r in rej.items() if r}
+            else:
+                res, errs = vlib.build_modules(h, run, self.extra_flags)
             if errs:
                 for a, log in errs.items():
                     sys.stderr.write("---- build of harness %s for %s failed ----\n%s\n" % (h, a, log[-4000:]))
@@ -123,7 +130,8 @@ class Elementwise:
         res = json.load(open(out))
         res["wall_s"] = time.time() - t0
         bound = self.bound[tier] if isinstance(self.bound, dict) else self.bound
-        return _finish(prop, tier, seed, res, skipped, self.rule, bound, self.assumptions)
+        extra = {"not_accepted_by_library": self.rejected} if self.probed else None
+        return _finish(prop, tier, seed, res, skipped, self.rule, bound, self.assumptions, extra)
 
     def replay(self, prop, path):
         v = json.load(open(path))
@@ -152,6 +160,12 @@ CHECKS = {
     "C01": Elementwise(["int"], RULE_EW, {
         "quick": "8-bit: all 65536 operand pairs x 64 lane offsets, ternary ALL8^2 x L8; 16-bit: ALL16 x L16, L16 x ALL16, L16^2 x 32 lane offsets; 32/64-bit: boundary lattice^2 (incl. 64 seed symbols) x all lane offsets; all 22 architectures",
         "thorough": "as quick plus all 2^32 16-bit operand pairs, ALL8^3 for the ternary operations, larger 32/64-bit lattices"}),
+    "C06": Elementwise(["conv"], RULE_EW, {
+        "quick": "batch_cast for every same-width (From,To) pair, to_int/to_float, load_as/store_as/broadcast_as for all 100 (From,To) pairs, bitwise_cast for all 100 pairs and its involution; sources: 8/16-bit exhaustive, 32-bit lattice + windows + every 251st bit pattern, 64-bit lattice + windows of +-4 around 2^23..2^63 and all int->float half-way cases, doubles lattice + integer-boundary windows + every binade x 32 mantissas; only representable sources are judged; all 22 architectures",
+        "thorough": "as quick with all 2^32 float32 and 32-bit integer sources"}),
+    "C09": Elementwise(["red"], RULE_EW + "; reductions are judged batch-wise: the space is lane-aware (one stream per batch size)", {
+        "quick": "per batch size L: one witness (8 values) at every lane over 4 backgrounds; two witnesses (3x3 values) at every lane pair p<q over 4 backgrounds; the whole lattice (8-bit: all values) passing through every lane; reduce_add/max/min, generic reduce(f) for f in {+,max,min,^} where the library accepts it (trial compilation), haddp with the witness in every (row, lane); float sums exact when every partial sum is representable, else within (n-1) roundings; all 22 architectures",
+        "thorough": "same space (it is small and already complete for its definition)"}, probed=True),
     "C07": Elementwise(["int"], RULE_EW, {
         "quick": "every lane value (8/16-bit exhaustive, 32/64-bit lattice) x every count in [0,bits), scalar-count and per-lane-count forms, every lane offset; bitwise operators on the C01 pair spaces; all 22 architectures",
         "thorough": "as quick plus all 2^32 16-bit pairs for the bitwise operators and full lane-offset product for 16-bit per-lane counts"}),
